@@ -28,4 +28,7 @@ VARIANTS = [
     V("N-positional-time-buffer", O, "        return buffer_timestamp(geometry, time_buffer=time_buffer)", "        return buffer_timestamp(geometry, time_buffer)", None),
     V("N-end-plus-assign", O, "    end_time += time_buffer\n    return data.TimeInterval", "    end_time = end_time + time_buffer\n    return data.TimeInterval", None),
     V("buffered-shape-converted-with-the-other-constructor", "src/soundevent/geometry/operations.py", '    if json_data["type"] == "Polygon":', '    if json_data["type"] != "Polygon":', "R11.5"),
+    # G.12
+    V("zero-buffers-rejected(G.12)", "src/soundevent/geometry/operations.py", "    if time_buffer < 0 or freq_buffer < 0:", "    if time_buffer == 0 and freq_buffer == 0:\n        raise ValueError(\"Nothing to buffer.\")\n\n    if time_buffer < 0 or freq_buffer < 0:", "G.12"),
+    V("N-guard-split", "src/soundevent/geometry/operations.py", "    if time_buffer < 0 or freq_buffer < 0:\n        raise ValueError(\n            \"The time buffer and the frequency buffer must be non negative.\"\n        )", "    if time_buffer < 0:\n        raise ValueError(\"The time buffer must be non negative.\")\n\n    if freq_buffer < 0:\n        raise ValueError(\"The frequency buffer must be non negative.\")", None),
 ]
